@@ -488,19 +488,23 @@ def specs(tier, seed, nworkers):
         s.append({"mode": "E1", "seed_state": "empty", "depth": 3 if quick else 4, "group": g, "groups": groups, "tier": tier})
     s.append({"mode": "E1", "seed_state": "logged-in", "depth": 2 if quick else 3, "group": 0, "groups": 1, "tier": tier})
     s.append({"mode": "E1", "seed_state": "owning", "depth": 2 if quick else 3, "group": 0, "groups": 1, "tier": tier})
-    hg = 10
+    hg = 20 if quick else 10
     for g in range(hg):
-        s.append({"mode": "E1", "seed_state": "holding2", "depth": 3 if quick else 4, "group": g, "groups": hg, "tier": tier})
+        deep = (not quick) or g % 2 != seed % 2
+        s.append({"mode": "E1", "seed_state": "holding2", "depth": (4 if not quick else 3) if deep else 2, "group": g, "groups": hg, "tier": tier})
     s.append({"mode": "E3", "tier": tier})
-    pg = 10
+    pg = 20 if quick else 10
     for g in range(pg):
-        s.append({"mode": "E1", "seed_state": "pending", "depth": 3 if quick else 4, "group": g, "groups": pg, "tier": tier})
+        # quick: depth 3 from this seed for one half of the first actions (the half is selected by the seed), the other
+        # half to depth 2; thorough: everything to depth 4
+        deep = (not quick) or g % 2 == seed % 2
+        s.append({"mode": "E1", "seed_state": "pending", "depth": (4 if not quick else 3) if deep else 2, "group": g, "groups": pg, "tier": tier})
     return s
 
 
 def meta(tier, seed, results):
     return {
-        "rule": "E1: breadth-first search over request histories of two clients against the real server binary; alphabet per client: register/login (own, shared and the other's name x two own passwords), logout, info, update (rename to own/shared/taken name x passwords), delete-account, add (with session / without: temporary account), solve, get, list, delete and the four unauthenticated variants, plus the event 'apply pending background write k'; one request at a time, its own database commands answered at once, the background write of add/solve captured and deferred. States (database + pending writes + sessions) are restored from snapshots and deduplicated on a canonical form (hashes -> password last set, temporary names -> first-seen index). Roots: the empty service and three seeds (both registered and logged in; both owning problem x; A holding the shared name with a pending parse write). After every transition clauses 1-6 of the oracle (see c17.py). Non-trivial: transitions executed in a state other than the root.",
+        "rule": "E1: breadth-first search over request histories of two clients against the real server binary; alphabet per client: register/login (own, shared and the other's name x two own passwords), logout, info, update (rename to own/shared/taken name x passwords), delete-account, add (with session / without: temporary account), solve, get, list, delete and the four unauthenticated variants, plus the event 'apply pending background write k'; one request at a time, its own database commands answered at once, the background write of add/solve captured and deferred. States (database + pending writes + sessions) are restored from snapshots and deduplicated on a canonical form (hashes -> password last set, temporary names -> first-seen index). Roots: the empty service and three seeds (both registered and logged in; both owning problem x; A holding the shared name with a pending parse write). Quick tier: from the seeds with a pending write and with two problems, depth 3 is completed for the first actions in one residue class modulo 2 (selected by VERIF_SEED) and depth 2 for the others. After every transition clauses 1-6 of the oracle (see c17.py). Non-trivial: transitions executed in a state other than the root.",
         "samples": [{"history": [["A", "register", "u1", "pwAone"], ["A", "login", "u1", "pwAone"], ["A", "add", "x"], ["B", "add-anon", "x"], ["A", "apply", 0]]}],
         "exhaustive": all(not r.get("capped") for r in results),
         "completed_depth_per_worker": [r.get("completed_depth") for r in results],
